@@ -205,8 +205,10 @@ func loadKnown(verif string) *KnownFile {
 // propertyFuncs: which functions a property's obligations can live in (all functions for the sweeps).
 func wantsFunc(g *Gen, f *ssa.Function, prop string) bool {
 	switch prop {
-	case "", "C03", "C06", "C07", "C09":
+	case "":
 		return true
+	case "C03", "C06", "C07", "C09":
+		return g.ReachableFromAPI()[f]
 	}
 	c := g.Spec.Contracts[FuncKey(f)]
 	if c == nil {
@@ -469,3 +471,49 @@ func writeReplay(verif, prop string, r *Result) string {
 }
 
 func cmdReplay(args []string) {}
+
+// ReachableFromAPI: functions reachable from Search, Compile, MustCompile, Expression.Search through
+// static calls and closures, plus every Error/Is/Unwrap method of the repository's error types
+// (errors returned to the caller can be formatted and matched) and the sort.Interface methods handed
+// to package sort.  String/Walk methods of AST nodes are debugging aids outside the API paths.
+func (g *Gen) ReachableFromAPI() map[*ssa.Function]bool {
+	if g.reach != nil {
+		return g.reach
+	}
+	g.reach = map[*ssa.Function]bool{}
+	var visit func(f *ssa.Function)
+	visit = func(f *ssa.Function) {
+		if f == nil || g.reach[f] || !g.IsRepoFunc(f) {
+			return
+		}
+		g.reach[f] = true
+		for _, b := range f.Blocks {
+			for _, in := range b.Instrs {
+				switch v := in.(type) {
+				case *ssa.Call:
+					visit(v.Common().StaticCallee())
+				case *ssa.MakeClosure:
+					if fn, ok := v.Fn.(*ssa.Function); ok {
+						visit(fn)
+					}
+				}
+			}
+		}
+		for _, an := range f.AnonFuncs {
+			visit(an)
+		}
+	}
+	for k, f := range g.Funcs {
+		switch shortKey(k) {
+		case "Search", "Compile", "MustCompile", "Expression.Search":
+			visit(f)
+		}
+		if f.Signature.Recv() != nil {
+			switch f.Name() {
+			case "Error", "Is", "Unwrap", "Len", "Less", "Swap":
+				visit(f)
+			}
+		}
+	}
+	return g.reach
+}
